@@ -1642,7 +1642,7 @@ fn main() {
             let m = match t % 3 { 0 => 0, 2 => 1, _ => 2 };
             let n = (t - 2 * m) / 3;
             let filler = format!("{}{}", "{{ 1 }}".repeat(m), "{{ 1 }}\n".repeat(n));
-            let recipe = format!("\"{{{{ 1 }}}}\" x {m} ++ \"{{{{ 1 }}}}\\n\" x {n} (= {t} instructions) ++ the snippet");
+            let recipe = format!("\"{{{{ 1 }}}}\" x {m} ++ \"{{{{ 1 }}}}\\n\" x {n} (= {t} instructions)");
             for (fi, fault) in faults.iter().enumerate() {
                 for (pi, pl) in placements.iter().enumerate() {
                     if !thorough && (pi >= 4 || (fi + pi + ti) % 2 == 1) {
@@ -1650,7 +1650,7 @@ fn main() {
                     }
                     let mut p = plant(fault, pl, ("big-chunk", &filler), SUFFIXES[(fi + pi) % SUFFIXES.len()], WRAPS[0], PREFIXES[5]);
                     p.expect_msg = baseline.get(fault.label).cloned();
-                    p.desc["templates"] = json!(format!("as placement `{pl}` with the fault template's prefix = {recipe}"));
+                    p.desc["templates"] = json!(p.templates.iter().map(|(n, t)| json!([n, t.replace(&filler, &format!("⟪{recipe}⟫"))])).collect::<Vec<_>>());
                     p.desc["instructions_before_the_fault"] = json!(t);
                     run.run_plant(&p, fault, &ctx);
                     n_big += 1;
@@ -1677,7 +1677,7 @@ fn main() {
                     }
                     let mut p = plant(fault, pl, (name, pre), SUFFIXES[(fi + li) % SUFFIXES.len()], WRAPS[0], PREFIXES[6]);
                     p.expect_msg = baseline.get(fault.label).cloned();
-                    p.desc["templates"] = json!(format!("as placement `{pl}` with the fault template's prefix = layout `{name}` ({} bytes)", pre.len()));
+                    p.desc["templates"] = json!(p.templates.iter().map(|(n, t)| json!([n, t.replace(pre.as_str(), &format!("⟪layout {name}: {} bytes⟫", pre.len()))])).collect::<Vec<_>>());
                     run.run_plant(&p, fault, &ctx);
                     n_big += 1;
                 }
